@@ -83,6 +83,8 @@ def gen_input_schema(rng, n_inputs=None, one_of=True):
     s.add("Query", {"kind": "object", "implements": [], "fields": [{"name": "ping", "type": T("Int"), "args": [], "deprecated": None}]})
     s.add("Mutation", {"kind": "object", "implements": [], "fields": [{"name": "pong", "type": T("Boolean"), "args": [], "deprecated": None}]})
     s.roots["mutation"] = "Mutation"
+    s.add("Subscription", {"kind": "object", "implements": [], "fields": [{"name": "tick", "type": T("Int"), "args": [], "deprecated": None}]})
+    s.roots["subscription"] = "Subscription"
     return s
 
 
@@ -105,7 +107,7 @@ def gen_var_operation(schema, rng, name="Op1", kind="query", n_vars=None):
         if t[0] == "named" and t[1] in ("Int", "String", "Boolean", "Float") and rng.random() < 0.3:
             default = {"Int": "42", "String": '"dflt \\" x"', "Boolean": "true", "Float": "1.5"}[t[1]]
         vs.append({"name": vn, "type": t, "default": default})
-    field = "ping" if kind == "query" else "pong"
+    field = {"query": "ping", "mutation": "pong", "subscription": "tick"}[kind]
     return {"kind": kind, "name": name, "vars": vs, "sel": [["field", None, field, None, None]]}
 
 
